@@ -17,4 +17,4 @@ Extraction "model.ml"
   build_cond build_onconflict into_condition api_between api_not_between api_like api_not_like api_is_in
   api_is_not_in api_in_tuples api_is_null api_is_not_null api_cast_as api_in_subquery api_exists
   to_simple_expr expr_into_condition inject_parameters
-  params_sep inline_sep crate_sep texts_params texts_inline pieces vals_of lex_texts clex_texts.
+  cte_from_select params_sep inline_sep crate_sep texts_params texts_inline pieces vals_of lex_texts clex_texts.
